@@ -305,23 +305,20 @@ def run(tier):
     writers(c, res, 'mac::Configuration', 'adr_enabled', {'lorawan_device::mac::Mac::new': 'construct', AA: 'store', NA: 'store'})
     # next_lower_datarate: Some(DR::from(x)) only under get_datarate(x).is_some(), x below current
     lbf = c.bf('lorawan_device::mac::session::next_lower_datarate')
-    n_some = 0
-    for b in lbf.body.blocks:
-        if b.cleanup:
-            continue
-        for si, s in enumerate(b.stmts):
-            if s.k == 'assign' and s.lhs.is_local() and s.lhs.local == 0 and s.rv.k == 'agg' and s.rv.d.get('variant') == 'Some':
-                n_some += 1
-                v = term_of_operand(lbf, s.rv.ops[0])
-                cs = path_conditions(lbf, b.idx)
-                okv = v[0] == 'call' and v[1].endswith('From<u8>>::from') or (v[0] == 'call' and 'from' in v[1])
-                cand = v[2][0] if okv else None
-                okg = any(cond_true(x) and x[0][0] == 'call' and x[0][1].endswith('is_some') and term_contains(x[0], lambda y: isinstance(y, tuple) and y[:1] == ('call',)
-                          and y[1].endswith('Configuration::get_datarate') and y[2][1] == cand) for x in cs)
-                res.require(okv and okg, 'C12:next_lower_datarate:some-guard', 'next_lower_datarate returns a rate the region does not define', short_site(lbf, b.idx, si),
-                            'DOM(Some(dr) => get_datarate(dr).is_some())', instance='next_lower_datarate: Some(DR::from(x)) under get_datarate(x).is_some()')
-    if n_some != 1:
-        raise CheckError('next_lower_datarate: expected exactly one Some(..) return, found %d' % n_some)
+    sr = rules.search_returns(lbf)
+    for r_ in sr:
+        v = r_['value']
+        okv = v[0] == 'call' and 'from' in v[1] and len(v[2]) == 1
+        cand = v[2][0] if okv else None
+
+        def defined(x):
+            k_ = rules.option_known(x)
+            return k_ is not None and k_[1] and isinstance(k_[0], tuple) and k_[0][:1] == ('call',) and k_[0][1].endswith('Configuration::get_datarate') and k_[0][2][1] == cand
+        okg = any(defined(x) for x in r_['guards'])
+        res.require(okv and okg, 'C12:next_lower_datarate:some-guard', 'next_lower_datarate returns a rate the region does not define', short_site(lbf, r_['site'][0], r_['site'][1]),
+                    'DOM(Some(dr) => get_datarate(dr).is_some())', instance='next_lower_datarate: Some(DR::from(x)) under get_datarate(x).is_some()')
+    if len(sr) != 1:
+        raise CheckError('next_lower_datarate: expected exactly one Some(..) return, found %d' % len(sr))
     rng = [callee_name(t) for bb, t in lbf.calls()]
     res.require(any(x.endswith('Iterator::rev') for x in rng) and any('Range' in term_str(term_of_operand(lbf, t.args[0])) or True for bb, t in lbf.calls_to('Iterator::rev')),
                 'C12:next_lower_datarate:direction', 'candidates are not scanned downwards', None, 'SHAPE(rev range)', instance='next_lower_datarate scans (0..current).rev()')
